@@ -249,6 +249,7 @@ class C18(Check):
         ctx.phase(self.urls, ctx, cu, rng)
         ctx.phase(self.separators, ctx, cu, rng)
         ctx.phase(self.order_and_separators, ctx, cu, rng)
+        ctx.phase(self.calc_correspondence, ctx, cu, rng)
 
     # -- defaults ----------------------------------------------------------------------------------
     def check_pref_defaults(self, ctx, cu):
@@ -904,6 +905,64 @@ class C18(Check):
             out += l + op + r + self.gen_calc_operand(rng, depth)
         name = rng.choice(['calc', 'calc', 'CALC', 'Calc'])
         return name + '(' + rng.choice(['', ' ']) + out + rng.choice(['', ' ']) + ')'
+
+    def calc_words(self, calc):
+        """the items of CSSCalc.seq in driver notation (nested calc() in brackets); None if an item is not modelled"""
+        words = []
+        for item in calc.seq:
+            t, v = item.type, item.value
+            if isinstance(v, str):
+                if t == 'FUNCTION':
+                    words.append('F:' + enc(v))
+                elif t == 'S':
+                    words.append('S')
+                elif t == 'CHAR' and v == ')':
+                    words.append('R')
+                elif t == 'CHAR':
+                    words.append('O:' + enc(v))
+                else:
+                    return None
+            elif type(v).__name__ == 'CSSCalc':
+                inner = self.calc_words(v)
+                if inner is None:
+                    return None
+                words += ['['] + inner + [']']
+            elif type(v).__name__ == 'DimensionValue' and v.type in T2 and len(v.seq) == 1:
+                words.append(T2[v.type] + ':' + enc(v.seq[0].value))
+            else:
+                return None
+        return words
+
+    def calc_correspondence(self, ctx, cu, rng):
+        """CSSCalc.cssText vs the model of do_css_CSSCalc / Out.append(alwaysS=True), under spacer preferences"""
+        from cssutils.css import PropertyValue
+        texts = ['calc(100% - 10px)', 'calc(1px - -2px)', 'calc(1px*-2)', 'Calc( 1px + calc(2PX*-3) )', 'calc(+.50em/2 - 0px)',
+                 'calc(1px)', 'calc( 1px + calc( 2px - calc(3px * 4) ) )']
+        texts += [self.gen_calc(rng) for _ in range(ctx.n(1500, 30000))]
+        prefsets = [DEFAULT, MINI, PrefSet(False, True, '', ' '), PrefSet(True, True, ' ', ''), PrefSet(False, False, '  ', ' ')]
+        lines, cases = [], []
+        for t in texts:
+            pv = PropertyValue(t)
+            if not pv.wellformed or pv.length != 1 or type(pv[0]).__name__ != 'CSSCalc':
+                ctx.count('calc:not-one-calc')
+                continue
+            words = self.calc_words(pv[0])
+            if words is None:
+                ctx.count('calc:not-modelled')
+                continue
+            for ps in prefsets:
+                lines.append('calc %s %s' % (ps.proto(), ' '.join(words)))
+                old = ps.apply(cu)
+                try:
+                    cases.append((t, ps, pv[0].cssText))
+                finally:
+                    ps.restore(cu, old)
+        out = ctx.driver(lines) if ctx.model_ok else []
+        for (t, ps, txt), m in zip(cases, out):
+            ctx.case(key=('calc', t, ps.key()), nontrivial=(txt != t), kind='calc:corr',
+                     sample={'calc': t, 'prefs': repr(ps), 'impl': txt})
+            if m != 'OK ' + enc(txt):
+                ctx.disagree('CSSCalc.cssText', {'text': t, 'prefs': repr(ps)}, txt, dec(m[3:]) if m.startswith('OK ') else m)
 
     def token_signature(self, text):
         """the non-white-space token sequence of a value text, numbers as exact (value, unit) so that only layout and
